@@ -987,19 +987,26 @@ CHECK = Check(
         "pending on its task); distinct = sha1 of the canonical case JSON"
     ),
     layers=[
-        Layer("invariants", st_invariants, run_invariants, {"quick": 3000, "thorough": 20000}),
-        Layer("exact", st_exact, run_exact, {"quick": 3500, "thorough": 25000}),
+        Layer("invariants", st_invariants, run_invariants, {"quick": 2500, "thorough": 12000}),
+        Layer("exact", st_exact, run_exact, {"quick": 3000, "thorough": 16000}),
     ],
     assumptions=[
-        "asyncio backend only (trio is not installed); time is the virtual clock of pbt.vloop, busy-run clock jumps are asserted to "
+        "asyncio backend only (trio is not installed); time is the virtual clock of pbt.vloop; busy-run clock jumps are asserted to "
         "happen only where the reference interpreter expects a cancelled scope polling task.cancel()",
         "a TimeoutError raised by timeout()/timeout_at() is caught right outside its with-block so that programs keep a single "
         "exception type (CancelledError); 'TimeoutError iff cancelled_caught()' is still checked on every timeout scope",
         "exact comparison is skipped (invariants still checked) when the reference interpreter reports two timers due at the same "
-        "virtual instant or a cross-task cancellation racing with a bare checkpoint/unstarted task in the same instant",
+        "virtual instant or a cross-task cancellation whose effect depends on the order of loop turns inside one instant",
         "when two nested scopes of one task are both cancelled the statement lets either catch; the reference takes that one choice "
         "from the observed cancelled_caught() and predicts everything else",
-        "task.cancel() calls are observed through a logging asyncio.Task subclass installed with loop.set_task_factory (harness-owned loop)",
-        "shapes of the confirmed defects D5/D6 are counted in excluded-* classes and not judged while EXCLUDE_D5/EXCLUDE_D6 are True",
+        "a child task is only expected to be interrupted by its own scopes and by its task group being cancelled (scopes are per "
+        "task); 'checkpoint completed inside a cancelled scope' is judged against the scopes hosted by the running task",
+        "task.cancel() calls are observed through a logging asyncio.Task subclass installed with loop.set_task_factory (harness-owned "
+        "loop); a call whose message starts with 'Cancelled by cancel scope ' is attributed to that scope, any other to a foreign requester",
+        "EXCLUDE_D5 (defect D5): when a task.cancel() not issued by a scope is pending on a task together with a cancelled scope of that "
+        "task (reference shape, or observed at the scope's exit), delivery of that foreign cancel and the exact trace are not judged",
+        "EXCLUDE_D6 (defect D6): the generator rewrites programs in which the reference sees a scope cancelled while its task is suspended "
+        "and left without an interrupt (trailing checkpoint / no deadline); when the observed run still shows a scope that issued "
+        "task.cancel() calls and exited without a CancelledError passing it, the leftover task.cancelling() count is not judged",
     ],
 )
